@@ -19,21 +19,53 @@ structure Case where
 
 def fuelFor (_ : Spec) : Nat := 64
 
+/-- `{"k":"shared","id":n}` stands for ONE spec object used at several places (the case lists the
+    fragments under "shared"); the model's specs are immutable trees: the fragment is written out -/
+partial def expandShared (tbl : Json) : Nat → Json → Except String Json
+  | 0, _ => throw "shared fragments nested too deep"
+  | fuel + 1, j =>
+    match j with
+    | .arr a => do return .arr (← a.mapM (expandShared tbl fuel))
+    | .obj kvs =>
+      if (j.getObjValAs? String "k").toOption == some "shared" then do
+        let id ← j.getObjValAs? Nat "id"
+        let frag ← tbl.getObjVal? (toString id)
+        expandShared tbl fuel frag
+      else do
+        let kvs' ← kvs.toList.mapM (fun (k, v) => do return (k, ← expandShared tbl fuel v))
+        return Json.mkObj kvs'
+    | other => pure other
+
 def decode (j : Json) : Except String Case := do
-  let spec ← specOfJson (← j.getObjVal? "spec")
+  let tbl := (j.getObjVal? "shared").toOption.getD (Json.mkObj [])
+  let spec ← specOfJson (← expandShared tbl 64 (← j.getObjVal? "spec"))
   let target ← vOfJson (← j.getObjVal? "target")
   let scope ← (match j.getObjVal? "scope" with
     | .ok (.arr a) => a.toList.mapM (fun e => match e with
         | .arr #[.str n, v] => do return (n, ← vOfJson v)
         | _ => throw s!"bad scope entry {e.compress}")
-    | _ => pure [])
+    | .ok .null => pure []
+    | .error _ => pure []
+    | .ok o => throw s!"bad scope {o.compress}")
+  -- a layered mapping (ChainMap) handed as scope=: the FIRST layer wins, so it is copied last
+  let scope ← (match j.getObjVal? "scope_layers" with
+    | .ok (.arr ls) => do
+      let layers ← ls.toList.mapM (fun l => match l with
+        | .arr a => a.toList.mapM (fun e => match e with
+            | .arr #[.str n, v] => do return (n, ← vOfJson v)
+            | _ => throw s!"bad scope entry {e.compress}")
+        | _ => throw "bad scope layer")
+      pure (layers.reverse.flatten)
+    | .ok .null => pure scope
+    | .error _ => pure scope
+    | .ok o => throw s!"bad scope_layers {o.compress}")
   let impl ← j.getObjVal? "impl"
   let implRes : Except String V ← (match impl.getObjVal? "ok" with
     | .ok v => do return .ok (← vOfJson v)
     | .error _ => do return .error (← impl.getObjValAs? String "err"))
-  let implLog := match j.getObjVal? "impl_log" with
-    | .ok (.arr a) => a.toList
-    | _ => []
+  let implLog ← (match j.getObjVal? "impl_log" with
+    | .ok (.arr a) => pure a.toList
+    | _ => throw "missing or malformed impl_log")
   return { spec, target, scope, implRes, implLog }
 
 def resToJson : Except String V → Json
